@@ -25,6 +25,9 @@ var creds = []auth.Credential{
 	{RefreshToken: "refresh-1"},
 	{AccessToken: "access-1"},
 	{Username: "carol", Password: "pw", RefreshToken: "r2", AccessToken: "a2"},
+	{Username: "dave", Password: "ends with space "},
+	{Username: " leading", Password: "\ttab and newline\n"},
+	{Username: "erin", Password: "   "},
 	{Username: "bad:user", Password: "x"}, // must be refused
 	{},
 }
